@@ -1,6 +1,8 @@
 import DigModel.Proofs.Lookup
 import DigModel.Api
 import DigModel.Proofs.ReachApi
+import DigModel.Proofs.Visible
+import DigModel.Proofs.ProvideStages
 /-
   C08 — Scope visibility: down the tree only, nearest wins, creation order irrelevant.
 
@@ -16,8 +18,17 @@ import DigModel.Proofs.ReachApi
     single key is listed in the providers of a scope on the path from the requesting scope to the root, and no
     scope nearer on that path provides the key (nearest wins) — constructors of siblings, descendants and of
     farther ancestors that are shadowed are not reachable for that key;
-  Export (registration in the root with the origin scope kept for the constructor's own dependencies) and the
-  graph-order half of "creation order is irrelevant" are covered by the correspondence check and the C16 twins.
+  * `C08_visible_iff` (**whole programs**): in the container any program leaves behind, a constructor is a visible
+    provider of a plain key it declares, as seen from scope `s`, **iff** its home scope is on the path from `s` to the
+    root — its own scope and every descendant, whenever created; never an ancestor, never a sibling
+    (`RegInv.regOK`, `RegWF.provPlain`);
+  * `C08_path_is_subtree`: `a` is on the path of `s` ⇒ `s` is in the subtree of `a` (what Provide's walk over the
+    descendants relies on; `TreeInv`);
+  * `C08_home_scope` (any reachable container, any accepted Provide): the constructor is registered in the scope the call
+    was made on, or in the **root** if the call carried `Export(true)`; `C08_root_visible_everywhere`: a constructor whose
+    home is the root is a visible provider from *every* scope (the root is on every path: the tree has one root);
+  The graph-order half of "creation order is irrelevant" is covered by C05 (`GT`: holders mean dependencies whatever
+  the order of scope creation and registration), the C16 twins and the correspondence check.
 -/
 namespace Dig.C08
 
@@ -71,6 +82,27 @@ theorem C08_reachable_providers_visible (st : St) (c : Nat) (k : Key) (pc : Nat)
     ∃ pre post, st.ancestors c = pre ++ pc :: post ∧ ∀ s ∈ pre, agetL (st.scope s).providers k = [] := by
   obtain ⟨pre, post, e, h1, _, h3⟩ := nearestProv_spec st k _ pc ns hn
   exact ⟨by rw [e]; simp, by rw [← h1]; exact hm, pre, post, e, h3⟩
+
+theorem C08_visible_iff (p : Program) (m : Nat) (hm : m < (runProgram p).1.ctors.length) (k : Key)
+    (hk : k ∈ ctorKeys (runProgram p).1 m) (hg : k.group = "") (s : Nat) :
+    m ∈ (runProgram p).1.allProviders s k ↔ ((runProgram p).1.ctor m).s ∈ (runProgram p).1.ancestors s :=
+  visible_iff (program_safeInv p).nb.reg (program_safeInv p).nb.wf m hm k hk hg s
+
+theorem C08_path_is_subtree (p : Program) (s a : Nat) (h : a ∈ (runProgram p).1.ancestors s) :
+    s ∈ (runProgram p).1.subscopes a :=
+  mem_subscopes_of_mem_ancestors (gt_program p).tree h
+
+theorem C08_root_visible_everywhere (p : Program) (m : Nat) (hm : m < (runProgram p).1.ctors.length)
+    (hhome : ((runProgram p).1.ctor m).s = 0) (k : Key) (hk : k ∈ ctorKeys (runProgram p).1 m) (s : Nat)
+    (hs : s < (runProgram p).1.scopes.length) : m ∈ (runProgram p).1.allProviders s k :=
+  root_visible_everywhere (program_safeInv p).nb.reg (gt_program p).tree m hm hhome k hk s hs
+
+theorem C08_home_scope (p : Program) (fn : Fn) (i s : Nat) (o : ProvideOpts)
+    (hok : (apiProvide p.ctx fn (runProgram p).1 i s o).2.v = .ok) :
+    (apiProvide p.ctx fn (runProgram p).1 i s o).1.ctors.length = (runProgram p).1.ctors.length + 1 ∧
+    ((apiProvide p.ctx fn (runProgram p).1 i s o).1.ctor (runProgram p).1.ctors.length).s = (if o.export_ then St.root else s) ∧
+    ((apiProvide p.ctx fn (runProgram p).1 i s o).1.ctor (runProgram p).1.ctors.length).fn = fn :=
+  apiProvide_ok_home (gt_program p) (program_safeInv p).ob p.ctx fn i s o hok
 
 /-- parents have smaller indexes than their children (scopes are only ever appended) -/
 def WFTree (scopes : List ScopeSt) : Prop :=
@@ -156,6 +188,10 @@ theorem C08_tree_wf (st : St) (parent : Nat) (hp : parent < st.scopes.length) (h
         simp; omega
       rw [this] at hj; simp at hj
 
+#print axioms C08_visible_iff
+#print axioms C08_path_is_subtree
+#print axioms C08_root_visible_everywhere
+#print axioms C08_home_scope
 #print axioms C08_path_only
 #print axioms nearestProv_spec
 #print axioms C08_reachable_providers_visible
